@@ -7,6 +7,7 @@ constants in the library (0.1 s queue poll / stop grace, 0 = bare yield).
 """
 from __future__ import annotations
 
+import copy
 import random
 
 NT = 6
@@ -55,6 +56,8 @@ def rand_prog(rng: random.Random, c: dict, level: int, nb: int, own_bus: int, sy
                     opts['rtype'] = rng.choice(['str', 'int', 'list', 'dict'])  # the event declares a result type
                 if rng.random() < c['p_explicit_parent']:
                     opts['parent'] = '00000000-0000-7000-8000-%012x' % rng.randrange(1 << 40)
+                elif rng.random() < c.get('p_prebuilt', 0.06):
+                    opts['prebuilt'] = True  # the object was constructed before the program started and is handed to this handler
                 prog.append(['disp', rng.randint(level + 1, c['levels'] - 1), tb, mode, pre, opts])
         elif x < 0.80 + c['p_bus']:
             prog.append(['bus'])
@@ -308,9 +311,48 @@ def cancel_derive(sc: dict, t: float, rng: random.Random):
     nb = len(sc['buses'])
     b = rng.randrange(nb)
     # (the harness waits long; the oracle's bound is 1 virtual second plus the time the handlers cancelled by it needed to unwind)
-    sc['actors'] = sc['actors'] + [[['sleep', t], ['cancel_runloop', b, 1.0 if not any(h.get('cleanup') for h in sc['handlers']) else 40.0]]]
+    if rng.random() < 0.5:
+        # the cancelled bus keeps a write-ahead log: the append after each event is a chain of thread hand-offs (open, write, close)
+        # during which no virtual time passes - the cancellation is placed k loop iterations into the instant so that it lands inside
+        sc['buses'][b]['wal'] = True
+    base_actors = sc['actors']
+    wait = 1.0 if not any(h.get('cleanup') for h in sc['handlers']) else 40.0
+    sc['actors'] = base_actors + [[['sleep', t], ['cancel_runloop', b, wait, 0]]]
     sc['no_idle_probe'] = True
     yield sc
+    if sc['buses'][b].get('wal'):
+        sc2 = copy.deepcopy(sc)
+        sc2['actors'] = copy.deepcopy(base_actors) + [[['sleep', t], ['cancel_runloop', b, wait, rng.choice([3, 5, 8, 12, 20])]]]
+        yield sc2
+
+
+def walcancel_base(rng: random.Random, i: int) -> dict:
+    """Buses that keep a write-ahead log and process fire-and-forget events in their OWN run loops (no inline drains): every event's
+    completion instant is followed, at the same virtual instant, by the run loop's WAL append - several thread hand-offs long."""
+    nb = rng.choice([1, 2])
+    buses = [{'name': f'B{k}', 'par': rng.random() < 0.3, 'lazy': False, 'hist': None, 'wal': rng.choice([True, True, 'nested'])} for k in range(nb)]
+    hs = []
+    for b in range(nb):
+        for t in (0, 1):
+            for _ in range(rng.choice([1, 1, 2])):
+                if rng.random() < 0.8:
+                    hs.append({'bus': b, 'pat': t, 'kind': 'async', 'prog': [['sleep', rng.choice([0.05, 0.1, 0.3])]]})
+                else:
+                    hs.append({'bus': b, 'pat': t, 'kind': 'sync', 'prog': []})
+    fwd = [[0, 1, '*']] if nb == 2 and rng.random() < 0.5 else []
+    actors = [[['disp', rng.choice([0, 1]), rng.randrange(nb), 'fire', rng.choice([0, 0.05, 0.1]), {}] for _ in range(rng.randint(2, 4))]]
+    return {'seed': rng.randrange(1 << 30), 'buses': buses, 'fwd': fwd, 'handlers': hs, 'actors': actors}
+
+
+def walcancel_derive(sc: dict, t: float, rng: random.Random):
+    """The run-loop task of one bus is cancelled k loop iterations into instant t (so: inside whatever multi-step work starts there)."""
+    b = rng.randrange(len(sc['buses']))
+    base_actors = sc['actors']
+    sc['no_idle_probe'] = True
+    for k in (rng.choice([3, 5]), rng.choice([8, 12, 20])):
+        sc2 = copy.deepcopy(sc)
+        sc2['actors'] = copy.deepcopy(base_actors) + [[['sleep', t], ['cancel_runloop', b, 1.0, k]]]
+        yield sc2
 
 
 def timeout_base(rng: random.Random, i: int) -> dict:
@@ -387,7 +429,7 @@ def timeout_derive(sc: dict, t: float, rng: random.Random):
         for h in sc['handlers']:
             for op in h['prog']:
                 if op[0] == 'disp' and rng.random() < 0.5:
-                    op[5] = dict(op[5] or {}, timeout=rng.choice([0.02, 0.07, 0.25, 2.0, 9.0]))
+                    op[5] = dict(op[5] or {}, timeout=rng.choice([0.02, 0.07, 0.25, 2.0, 9.0, 0, 0.0, -1.0]))  # (zero / negative: an exhausted budget)
     which = rng.random()
     if which < 0.7:
         sc['actors'][0][0][5] = {'timeout': t}
@@ -715,6 +757,40 @@ def later_scenario(rng: random.Random, i: int) -> dict:
     sc = {'seed': rng.randrange(1 << 30), 'buses': buses, 'fwd': [], 'handlers': hs, 'actors': actors}
     if rng.random() < 0.5:
         sc['loop'] = {'jitter': 1e-7}
+    return sc
+
+
+def odd_timeout_scenario(rng: random.Random, i: int) -> dict:
+    """Event timeouts that are legal but unusual, on ordinary programs: (a) generous timeouts that cannot expire (600 s / 1 h of
+    virtual time) on event objects that were constructed long before they are dispatched (creation time up to a day in the past) -
+    a timeout is per handler, counted from the handler's start, whatever the age of the object; (b) zero and negative timeouts
+    (an exhausted deadline budget passed on): the event's async handlers time out at once, sync handlers run, the event completes."""
+    x = rng.random()
+    if x < 0.4:
+        sc = shapes_scenario(rng, i)
+        zero_ok = False
+    elif x < 0.7:
+        sc = later_scenario(rng, i)
+        zero_ok = True
+    else:
+        sc = random_scenario(rng, cfg(nb=(1, 3), p_fwd=0.3, p_par=0.25, levels=4, actor_await=0.6, p_raise=0.08))
+        zero_ok = True
+    progs = [h['prog'] for h in sc['handlers']] + list(sc['actors'])
+    for prog in progs:
+        for op in prog:
+            if op[0] != 'disp':
+                continue
+            while len(op) < 6:
+                op.append(None)
+            o = dict(op[5] or {})
+            y = rng.random()
+            if y < 0.5:
+                o['slack_timeout'] = rng.choice([600.0, 3600.0])
+                if rng.random() < 0.7 and not o.get('prebuilt'):
+                    o['age'] = rng.choice([5.0, 700.0, 4000.0, 90000.0])
+            elif y < 0.62 and zero_ok and not o.get('share'):
+                o['timeout'] = rng.choice([0, 0.0, -1.0, -0.25])
+            op[5] = o
     return sc
 
 
